@@ -27,6 +27,8 @@ type vsCfg struct {
 type vsPrepop struct {
 	Var int     `json:"var"`
 	Val ValSpec `json:"val"`
+	// Extra attribute bits the pre-populated file carries beyond the definition's
+	Extra uint32 `json:"extra_attrs,omitempty"`
 }
 
 type vsOp struct {
@@ -99,7 +101,8 @@ func (e *varstoreEngine) Gen(seed uint64, tier string, run int) *Trace {
 	}
 	// small value universe per run so that values repeat, grow and shrink
 	dbvals := []ValSpec{{Kind: "hashdb", N: 0}, {Kind: "hashdb", N: 1, Tag: 1 + r.Intn(3)}, {Kind: "hashdb", N: 2, Tag: 1 + r.Intn(3)},
-		{Kind: "hashdb", N: 3, Tag: 1 + r.Intn(3)}, {Kind: "hashdb", N: r.Range(4, 9), Tag: 9}, {Kind: "certdb", Tag: r.Intn(poolSize)}}
+		{Kind: "hashdb", N: 3, Tag: 1 + r.Intn(3)}, {Kind: "hashdb", N: r.Range(4, 9), Tag: 9}, {Kind: "certdb", Tag: r.Intn(poolSize)},
+		{Kind: "multidb", N: r.Range(2, 4), Tag: r.Intn(4)}}
 	rawvals := []ValSpec{{Kind: "raw", N: 0}, {Kind: "raw", N: 1, Tag: 1}, {Kind: "raw", N: 4, Tag: 2}, {Kind: "raw", N: 7, Tag: 3},
 		{Kind: "raw", N: 48, Tag: 4}, {Kind: "raw", N: r.Range(49, 400), Tag: 5}, {Kind: "bootorder", N: r.Range(1, 6), Tag: 1}}
 	val := func(i int) ValSpec {
@@ -111,7 +114,11 @@ func (e *varstoreEngine) Gen(seed uint64, tier string, run int) *Trace {
 	if r.Chance(1, 3) {
 		for i := range c.Vars {
 			if r.Bool() {
-				c.Prepop = append(c.Prepop, vsPrepop{Var: i, Val: val(i)})
+				pp := vsPrepop{Var: i, Val: val(i)}
+				if r.Chance(1, 3) {
+					pp.Extra = uint32(Pick(r, []int{0x1, 0x8, 0x10, 0x80, 0x9}))
+				}
+				c.Prepop = append(c.Prepop, pp)
 			}
 		}
 	}
@@ -245,7 +252,10 @@ func vsExec(c vsCfg, ops []vsOp, x *X) (hist []porcupine.Operation) {
 		v := c.Vars[p.Var].Var()
 		val := p.Val.Bytes()
 		pth := refVarPath("/sys/firmware/efi/efivars", v.Name, *v.GUID)
-		tfs.With(fstest.MapFS{pth: {Data: append(le32(uint32(v.Attributes)), val...)}})
+		tfs.With(fstest.MapFS{pth: {Data: append(le32(uint32(v.Attributes)|p.Extra), val...)}})
+		if p.Extra != 0 {
+			x.Probe("prepopulated_with_extra_attributes")
+		}
 		model[p.Var], has[p.Var] = val, true
 		x.Logf("prepopulated %s = %s", c.Vars[p.Var].String(), shortHex(val))
 	}
@@ -401,7 +411,7 @@ func vsExec(c vsCfg, ops []vsOp, x *X) (hist []porcupine.Operation) {
 				x.Fail("register.read_equals_last_write", i, op.Op, "read of %s returned %s, the most recent write stored %s", vs.String(), shortHex(got), shortHex(want))
 				return hist
 			}
-			if op.Op == "GetVarWithAttributes" && gotAttrs != v.Attributes {
+			if op.Op == "GetVarWithAttributes" && gotAttrs != v.Attributes && writes[op.Var] > 0 {
 				x.Fail("register.read_equals_last_write", i, op.Op, "attributes %#x, written with %#x", gotAttrs, v.Attributes)
 				return hist
 			}
